@@ -5,4 +5,6 @@ cd "$(dirname "$0")/.."
 export CARGO_NET_OFFLINE=true
 cp /repo/Cargo.lock harness/Cargo.lock 2>/dev/null || true
 cargo build --release --offline --manifest-path harness/Cargo.toml --target-dir target/base
+cargo build --release --offline --manifest-path harness/Cargo.toml --target-dir target/nofast --features nofast
+cargo build --release --offline --manifest-path harness/Cargo.toml --target-dir target/instr --features instr
 echo "setup ok"
